@@ -42,6 +42,7 @@ import (
 	netmaprpc "github.com/nspcc-dev/neofs-contract/rpc/netmap"
 	"github.com/nspcc-dev/neofs-node/internal/verifhook"
 	"github.com/nspcc-dev/neofs-node/internal/verifkit"
+	"github.com/nspcc-dev/neofs-node/pkg/innerring/processors"
 	"github.com/nspcc-dev/neofs-node/pkg/innerring/processors/alphabet"
 	"github.com/nspcc-dev/neofs-node/pkg/innerring/processors/balance"
 	"github.com/nspcc-dev/neofs-node/pkg/innerring/processors/container"
@@ -526,9 +527,51 @@ type vf37Node struct {
 
 type vf37NodeOpts struct {
 	AlphabetContracts int
-	MetaEnabled       bool
+	MetaEnabled       bool // experimental chain metadata ("meta-on-chain") switched on
+	MetaChain         *vf37MetaChain
 	AllowEC           bool
 	StorageEmission   uint64
+}
+
+// vf37MetaChain stands for the metadata chain of a node with chain metadata enabled; it
+// only records what the container processor registers there.
+type vf37MetaChain struct {
+	mu         sync.Mutex
+	Registered []cid.ID
+	Placements []cid.ID
+}
+
+func (m *vf37MetaChain) UpdateContainerPlacement(id cid.ID, _ [][]sdknetmap.NodeInfo, _ sdknetmap.PlacementPolicy, _ uint32) error {
+	m.mu.Lock()
+	defer m.mu.Unlock()
+	m.Placements = append(m.Placements, id)
+	return nil
+}
+
+func (m *vf37MetaChain) RegisterMetadataContainer(id cid.ID, _ uint32) error {
+	m.mu.Lock()
+	defer m.mu.Unlock()
+	m.Registered = append(m.Registered, id)
+	return nil
+}
+
+// takeRegistered returns and forgets the containers registered since the last call.
+func (m *vf37MetaChain) takeRegistered() []cid.ID {
+	m.mu.Lock()
+	defer m.mu.Unlock()
+	res := m.Registered
+	m.Registered, m.Placements = nil, nil
+	return res
+}
+
+func vf37MetaClientOf(o vf37NodeOpts) processors.MetadataChain {
+	if o.MetaChain == nil {
+		if o.MetaEnabled {
+			return &vf37MetaChain{}
+		}
+		return nil // like innerring.New: no metadata actor unless the feature is on
+	}
+	return o.MetaChain
 }
 
 // vf37NewNode assembles the state, clients, processors and listeners like innerring.New
@@ -598,7 +641,7 @@ func vf37NewNode(t testing.TB, rng *rand.Rand, ch *vf37Chain, o vf37NodeOpts) *v
 	must(bindFSChainProcessor(srv.netmapProcessor, srv))
 
 	n.container, err = container.New(&container.Params{Log: log, PoolSize: 1, AlphabetState: srv, ContainerClient: cnrClient, NetworkState: srv.netmapClient,
-		MetaEnabled: false, AllowEC: o.AllowEC, ChainTime: vf37Time{n.now}})
+		MetaEnabled: o.MetaEnabled, MetaClient: vf37MetaClientOf(o), AllowEC: o.AllowEC, ChainTime: vf37Time{n.now}})
 	must(err)
 	n.procs["container"] = n.container
 	must(bindFSChainProcessor(n.container, srv))
@@ -682,6 +725,8 @@ type vf37CnrOpts struct {
 	Attrs      [][2]string
 	BasicACL   acl.Basic
 	Name, Zone string
+	// DomainFirst: the domain attributes are written before Attrs (else after them)
+	DomainFirst bool
 }
 
 func vf37Container(rng *rand.Rand, owner user.ID, o vf37CnrOpts) sdkcontainer.Container {
@@ -702,16 +747,24 @@ func vf37Container(rng *rand.Rand, owner user.ID, o vf37CnrOpts) sdkcontainer.Co
 	}
 	c.SetPlacementPolicy(pp)
 	c.SetAttribute("Nonce", fmt.Sprint(rng.Uint64()))
+	writeDomain := func() {
+		if o.Name != "" {
+			var d sdkcontainer.Domain
+			d.SetName(o.Name)
+			if o.Zone != "" {
+				d.SetZone(o.Zone)
+			}
+			c.WriteDomain(d)
+		}
+	}
+	if o.DomainFirst {
+		writeDomain()
+	}
 	for _, a := range o.Attrs {
 		c.SetAttribute(a[0], a[1])
 	}
-	if o.Name != "" {
-		var d sdkcontainer.Domain
-		d.SetName(o.Name)
-		if o.Zone != "" {
-			d.SetZone(o.Zone)
-		}
-		c.WriteDomain(d)
+	if !o.DomainFirst {
+		writeDomain()
 	}
 	return c
 }
